@@ -46,6 +46,8 @@ func c14Alphabet() []seqSym {
 		sy("SET", "k1", "a", "EX", "10000000000", "POINT", "7", "7"), // beyond the int64 nanosecond range: never early
 		sy("EXPIRE", "k1", "a", "10000000000"),
 		sy(append([]string{"SETCHAN", "chx", "EX", "10000000000"}, fence...)...),
+		sy("SET", "k1", "a", "EX", "nan", "POINT", "7", "7"), // not a number of seconds: refused
+		sy("EXPIRE", "k1", "a", "NaN"),
 		sy("READONLY", "yes"), // deadlines keep passing on a read-only leader
 		sy("READONLY", "no"),
 		sy("EXPIRE", "k1", "a", "0.73"),
